@@ -11,7 +11,8 @@ AddAct(D, ovf) == LET o == AddDT(cur, D, ovf) IN last' = [op |-> "add", a |-> cu
 SubAct(D, ovf) == LET o == SubDT(cur, D, ovf) IN last' = [op |-> "subtract", a |-> cur, dur |-> D, ovf |-> ovf, out |-> o] /\ cur' = Move(o)
 UntilAct(b, lg) == last' = [op |-> "until", a |-> cur, b |-> b, lg |-> lg, out |-> UntilDT(cur, b, lg)] /\ cur' = b
 SinceAct(b, lg) == last' = [op |-> "since", a |-> cur, b |-> b, lg |-> lg, out |-> SinceDT(cur, b, lg)] /\ cur' = b
-RoundAct(o) == LET r == RoundDT(cur, o.u, o.inc, o.mode) IN last' = [op |-> "round", a |-> cur, o |-> o, out |-> r] /\ cur' = Move(r)
+\* (mode "absent": the call names no rounding mode - halfExpand)
+RoundAct(o) == LET r == RoundDT(cur, o.u, o.inc, IF o.mode = "absent" THEN "halfExpand" ELSE o.mode) IN last' = [op |-> "round", a |-> cur, o |-> o, out |-> r] /\ cur' = Move(r)
 Next == /\ (OneStep => last = None)
         /\ \/ \E D \in Durs, ovf \in {"constrain", "reject"} : AddAct(D, ovf) \/ SubAct(D, ovf)
            \/ \E b \in DTs, lg \in Largests : UntilAct(b, lg) \/ SinceAct(b, lg)
